@@ -246,8 +246,8 @@ func cells(ks []*kindSpec) []*cell {
 	// []byte
 	bb := []byte("abcd") // b1 is a window of a longer array: other windows start at the same element
 	b1, b2 := bb[:2], []byte("zz")
-	deliverNil("[]byte", clUntypedNil, "nil", nil, b1)
-	deliverNil("[]byte", clTypedNil, "[]byte(nil)", []byte(nil), b1)
+	deliverNil("[]byte", clUntypedNil, "nil", nil, b1, []byte{})
+	deliverNil("[]byte", clTypedNil, "[]byte(nil)", []byte(nil), b1, []byte{})
 	deliver("[]byte", clNonZero, "[]byte(\"ab\")", b1, b1, b2, bb[:1], bb[:4], bb[:0], nilK)
 	open("[]byte", clSameSize, "[3]int64{}", [3]int64{}, whySameSize)
 	reject("[]byte", clSmaller, "[2]int64{}", [2]int64{})
@@ -255,8 +255,8 @@ func cells(ks []*kindSpec) []*cell {
 
 	// map
 	m1, m2 := map[string]int{"a": 1}, map[string]int{"b": 2}
-	deliverNil("map", clUntypedNil, "nil", nil, m1)
-	deliverNil("map", clTypedNil, "map[string]int(nil)", map[string]int(nil), m1)
+	deliverNil("map", clUntypedNil, "nil", nil, m1, map[string]int{})
+	deliverNil("map", clTypedNil, "map[string]int(nil)", map[string]int(nil), m1, map[string]int{})
 	deliver("map", clNonZero, "map{a:1}", m1, m1, m2, nilK)
 	open("map", clSameSize, "uintptr(0)", uintptr(0), whySameSize)
 	reject("map", clSmaller, "int32(0)", int32(0))
